@@ -106,9 +106,13 @@ SimultaneousAssignment == \A t \in DOMAIN st.asg : Final.file[t] = st.asg[t]
 OnlyScratchClobbered == \A u \in Temps \ DOMAIN st.asg : Final.file[u] = u
 Correct == SimultaneousAssignment /\ OnlyScratchClobbered
 
-Init == st \in {[asg |-> a, spills |-> (k + 1)..N, backend |-> b] :
-                  a \in UNION {[T -> Temps] : T \in SUBSET Temps}, k \in 0..N, b \in {"x86", "a64", "rv64"}}
-             \ {x \in {[asg |-> a, spills |-> (k + 1)..N, backend |-> "rv64"] : a \in UNION {[T -> Temps] : T \in SUBSET Temps}, k \in 0..(N - 1)} : TRUE}
-Next == UNCHANGED st
-Spec == Init /\ [][Next]_st
+\* the three components are drawn separately (TLC refuses to build the product as one set when it has more than 10^6 elements)
+VARIABLES vasg, vk, vb
+Init == /\ vasg \in UNION {[T -> Temps] : T \in SUBSET Temps}
+        /\ vk \in 0..N
+        /\ vb \in {"x86", "a64", "rv64"}
+        /\ (vb = "rv64" => vk = N)                      \* no spill slots on RISC-V
+        /\ st = [asg |-> vasg, spills |-> (vk + 1)..N, backend |-> vb]
+Next == UNCHANGED <<st, vasg, vk, vb>>
+Spec == Init /\ [][Next]_<<st, vasg, vk, vb>>
 =============================================================================
